@@ -326,3 +326,78 @@ V("C12-mark-wrong-key", "C12", "default mark recorded under a different key", CO
   "        self._default_value_keys.add(key)", "        self._default_value_keys.add(key.lower())", expect_rule="pairing.same-key")
 V("C12-benign-mark-first-param", "C12", "_set_default_value uses update([key])", CORE, expect="silent",
   old="        self._default_value_keys.add(key)", new="        self._default_value_keys.update([key])")
+
+# ------------------------------------------------------------------------------------------ C11
+V("C11-load-no-validate", "C11", "load_tree no longer validates", CORE,
+  "        if validate:\n            self.validate()\n", "", expect_rule="load_tree.ends-in-validate")
+V("C11-loads-validate-off", "C11", "document loads pass validate=False", CORE,
+  "        self.load_tree(tree)\n\n    def _process_includes", "        self.load_tree(tree, validate=False)\n\n    def _process_includes",
+  expect_rule="loads.validate-on")
+V("C11-skip-fields-extended", "C11", "validation skip list extended by Field", CORE,
+  "        ignore_types = (IncludeFieldMixin, VirtualFieldMixin, InstanceMethodFieldMixin)",
+  "        ignore_types = (IncludeFieldMixin, VirtualFieldMixin, InstanceMethodFieldMixin, ConfigTypeField)",
+  expect_rule="schema.")
+V("C11-handler-swallows", "C11", "generic handler of Schema._validate swallows field errors", CORE,
+  """            except Exception as err:  # pylint: disable=broad-except
+                exc = ValidationError(config, field, err)
+                if not collect_errors:
+                    raise exc from err
+                errors.append(exc)
+
+        for validator""",
+  """            except Exception as err:  # pylint: disable=broad-except
+                exc = ValidationError(config, field, err)
+                if collect_errors:
+                    errors.append(exc)
+
+        for validator""", expect_rule="handler.")
+V("C11-validate_field-no-recursion", "C11", "_validate_field no longer recurses into sub-configs", CORE,
+  "        elif isinstance(val, Config):\n            val.validate()", "        elif isinstance(val, ConfigType):\n            val.validate()",
+  expect_rule="validate_field.total")
+V("C11-required-after-none", "C11", "None short-circuit before the required test", CORE,
+  """        if self.required and value is None:
+            raise ValueError("value is required")
+
+        if value is None:
+            return value
+""",
+  """        if value is None:
+            return value
+
+        if self.required and value is None:
+            raise ValueError("value is required")
+""", expect_rule="required.before-none")
+V("C11-list-required-empty", "C11", "ListField accepts an empty list although required", LIST,
+  "        if self.required and not value:\n            raise ValueError(\"value is required\")\n\n        if not self.field",
+  "        if not self.field", expect_rule="required.rejects-empty @ ListField._validate")
+V("C11-list-item-config-unvalidated", "C11", "Config items appended to a list are not validated", LIST,
+  "                value._container = self\n                value.validate()\n", "                value._container = self\n",
+  expect_rule="list-items.validated")
+V("C11-validators-early-return", "C11", "schema validators skipped when there are field errors", CORE,
+  "        for validator in self._validators:\n            try:",
+  "        if errors:\n            return errors\n        for validator in self._validators:\n            try:",
+  expect_rule="schema.no-early-return")
+V("C11-feature-flag-parent", "C11", "feature gate evaluated on the parent configuration", CORE,
+  "        if not self._is_feature_enabled(config):\n            return []",
+  "        if not self._is_feature_enabled(config._parent or config):\n            return []",
+  expect_rule="schema.feature-flag-own")
+V("C11-validator-not-registered", "C11", "validator() forgets schema targets", SUP,
+  "        elif isinstance(field, Schema):\n            field._validators.append(func)  # type: ignore\n",
+  "", expect_rule="register.schema")
+V("C11-nested-collects", "C11", "nested validation runs in collecting mode and the result is dropped", CORE,
+  "        elif isinstance(val, Config):\n            val.validate()", "        elif isinstance(val, Config):\n            val.validate(collect_errors=True)",
+  expect_rule="validate_field.recursion-raises")
+V("C11-raise-mode-continues", "C11", "ValidationError handler does not raise in raising mode", CORE,
+  """            except ValidationError as err:
+                if not collect_errors:
+                    raise
+                errors.append(err)
+            except Exception as err:  # pylint: disable=broad-except
+                exc = ValidationError(config, field, err)""",
+  """            except ValidationError as err:
+                errors.append(err)
+            except Exception as err:  # pylint: disable=broad-except
+                exc = ValidationError(config, field, err)""", expect_rule="handler.raises-unless-collecting")
+V("C11-benign-skip-inline", "C11", "skip tuple inlined into the isinstance call", CORE, expect="silent",
+  edits=[(CORE, "            if isinstance(field, ignore_types):\n                continue",
+          "            if isinstance(field, (IncludeFieldMixin, VirtualFieldMixin, InstanceMethodFieldMixin)):\n                continue")])
